@@ -96,13 +96,15 @@ func (t *pushTarget) OnReadRtmpAvMsg(msg base.RtmpMsg) {
 	t.msgs = append(t.msgs, msg.Clone())
 }
 
-// hookRecorder counts what the stream hook is told, per input epoch
+// hookRecorder records what the stream hook is told, per input epoch: which published
+// message each OnMsg carried (compared with the message being published: type, timestamp, payload)
 type hookRecorder struct {
 	mu     sync.Mutex
 	epochs []*hookEpoch
+	msgs   *[]pubMsg
 }
 type hookEpoch struct {
-	msgs  int
+	msgs  []string
 	stops int
 }
 type hookCtx struct {
@@ -110,8 +112,17 @@ type hookCtx struct {
 	e *hookEpoch
 }
 
-func (h *hookCtx) OnMsg(msg base.RtmpMsg) { h.r.mu.Lock(); h.e.msgs++; h.r.mu.Unlock() }
-func (h *hookCtx) OnStop()                { h.r.mu.Lock(); h.e.stops++; h.r.mu.Unlock() }
+func (h *hookCtx) OnMsg(msg base.RtmpMsg) {
+	h.r.mu.Lock()
+	defer h.r.mu.Unlock()
+	name := "?"
+	ms := *h.r.msgs
+	if i := len(ms) - 1; i >= 0 && ms[i].t == msg.Header.MsgTypeId && ms[i].ts == msg.Header.TimestampAbs && bytes.Equal(ms[i].payload, msg.Payload) {
+		name = fmt.Sprintf("%d", i)
+	}
+	h.e.msgs = append(h.e.msgs, name)
+}
+func (h *hookCtx) OnStop() { h.r.mu.Lock(); h.e.stops++; h.r.mu.Unlock() }
 
 // parkConn is the client side of an RTSP command connection: requests are fed
 // one step at a time, and the harness can wait until the server's command loop
@@ -496,6 +507,9 @@ func runFanoutHistory(cfgTok, evTok string) string {
 	consumers := map[uint64]*fanConsumer{}
 	var order []uint64
 	var msgs []pubMsg
+	if hooks != nil {
+		hooks.msgs = &msgs
+	}
 	var tsBlobs, patBlobs, sdpBlobs, rtpPkts [][]byte
 	pushAttached := false
 	wantOpened := 0
@@ -900,7 +914,11 @@ func runFanoutHistory(cfgTok, evTok string) string {
 	if hooks != nil {
 		var hs []string
 		for _, e := range hooks.epochs {
-			hs = append(hs, fmt.Sprintf("%d:%d", e.msgs, e.stops))
+			ms := "-"
+			if len(e.msgs) > 0 {
+				ms = strings.Join(e.msgs, ",")
+			}
+			hs = append(hs, fmt.Sprintf("%s:%d", ms, e.stops))
 		}
 		if len(hs) == 0 {
 			hs = []string{"-"}
